@@ -23,6 +23,8 @@ def main():
     CLS = {"Table": Table, "ProbabilityTable": ProbabilityTable, "StateTable": StateTable,
            "StateActionTable": StateActionTable, "StateActionNextStateTable": StateActionNextStateTable,
            "TabularPolicy": TabularPolicy, "TableDistribution": TableDistribution}
+    from msdm.core.mdp.tables import StateNextStateTable
+    CLS["StateNextStateTable"] = StateNextStateTable
     SENT = object()
 
     def dec(v):
@@ -64,9 +66,14 @@ def main():
                 raise
             return ("__err__", type(e).__name__)
 
+    def is_cell(r):
+        if OFF[0]:
+            return isinstance(r, (float, np.floating)) and float(r) >= 1.0 and float(r) == int(r)
+        return isinstance(r, (int, np.integer)) and not isinstance(r, bool)
+
     def scalar_obs(r):
         if r is SENT: return ["default"]
-        if isinstance(r, (int, np.integer)) and not isinstance(r, bool): return ["scalar", int(r)]
+        if is_cell(r): return ["scalar", int(r) - OFF[0]]
         if isinstance(r, float): return ["default-float", r]
         return ["other", repr(r)[:80]]
 
@@ -99,29 +106,72 @@ def main():
                     extra["len"] = catching(lambda: len(r))
             return ["table", type(r).__name__, [enc(n) for n in ti.field_names],
                     [[enc(e) for e in d] for d in ti.field_domains],
-                    [int(x) for x in np.asarray(r._data).ravel().tolist()], probs, extra,
+                    [int(x) - OFF[0] for x in np.asarray(r._data).ravel().tolist()], probs, extra,
                     {"data_shape": list(np.asarray(r._data).shape), "dom_types": [type(d).__name__ for d in ti.field_domains]}]
-        if isinstance(r, (int, np.integer)) and not isinstance(r, bool):
-            return ["scalar", int(r)]
+        if is_cell(r):
+            return ["scalar", int(r) - OFF[0]]
         return ["other", repr(r)[:80]]
 
-    def build(case):
+    OFF = [0]      # float-data mode stores cell+1 as float64; observations report the integer cell
+
+    def build(case, bump=0, reuse_from=None):
+        """builds the table of the case through the representation the case asks for:
+        rep.doms_as list|tuple|domaintuple, rep.ctor default|fields|from_dict|listdata, rep.dtype int|float"""
+        rep = case.get("rep", {})
         cls = CLS[case["cls"]]
         doms = [[dec(e) for e in d] for d in case["doms"]]
         names = [dec(n) for n in case["names"]]
         shape = tuple(len(d) for d in doms)
-        data = np.arange(int(np.prod(shape))).reshape(shape)
-        if case["cls"] == "StateTable":
+        flat = [x + bump for x in case["data"]]
+        if rep.get("dtype") == "float":
+            data = (np.array(flat, dtype=float) + 1.0).reshape(shape)
+        else:
+            data = np.array(flat, dtype=int).reshape(shape)
+        if reuse_from is not None:          # the very domaintuple / TableIndex objects of an already used table
+            doms = list(reuse_from.table_index.field_domains)
+        else:
+            conv = {"list": list, "tuple": tuple, "domaintuple": domaintuple}[rep.get("doms_as", "list")]
+            doms = [conv(d) for d in doms]
+        ctor = rep.get("ctor", "default")
+        name = case["cls"]
+        if ctor == "from_dict":
+            miss = set(tuple(m) for m in case.get("missing", []))
+            if name == "StateTable":
+                return cls.from_dict({s: data[i] for i, s in enumerate(doms[0])})
+            d = {s: {a: data[i, j] for j, a in enumerate(doms[1]) if (i, j) not in miss} for i, s in enumerate(doms[0])}
+            return cls.from_dict(d, default_value=(999 + (1 if rep.get("dtype") == "float" else 0)))
+        if ctor == "listdata":
+            data = data.tolist()
+        if name == "StateTable":
             return cls.from_state_list(doms[0], data)
-        if case["cls"] in ("StateActionTable", "TabularPolicy"):
+        if name == "StateNextStateTable":
+            return cls.from_state_list(doms[0], data)
+        if name in ("StateActionTable", "TabularPolicy", "StateActionNextStateTable"):
             return cls.from_state_action_lists(doms[0], doms[1], data)
-        if case["cls"] == "StateActionNextStateTable":
-            return cls.from_state_action_lists(doms[0], doms[1], data)
+        if reuse_from is not None and ctor != "fields":
+            return cls(data, reuse_from.table_index)
+        if ctor == "fields":
+            from msdm.core.table.tableindex import Field
+            return cls(data, TableIndex(fields=[Field(n, domaintuple(d)) for n, d in zip(names, doms)]))
         return cls(data, TableIndex(field_names=names, field_domains=doms))
 
     def one(case, pl):
-        t = build(case)
+        rep = case.get("rep", {})
+        OFF[0] = 1 if rep.get("dtype") == "float" else 0
+        if rep.get("reuse"):
+            # a twin table over the same labels with other numbers is built and USED first (caches on the
+            # domaintuple / TableIndex objects are filled), then the real table is derived from its objects
+            t0 = build(case, bump=1000)
+            list(t0.items()); len(t0); t0.table_index.shape
+            for ch in case["chains"]:
+                catching(lambda: t0[dec(ch[0])])
+            t = build(case, reuse_from=(None if rep.get("ctor") == "from_dict" else t0))
+        else:
+            t = build(case)
         res = {"names": [enc(n) for n in t.table_index.field_names],
+               "doms": [[enc(e) for e in d] for d in t.table_index.field_domains],
+               "data": [int(x) - OFF[0] for x in np.asarray(t._data).ravel().tolist()],
+               "shape": list(t.shape), "ndim": int(t.ndim),
                "keys": [enc(k) for k in t.keys()], "iter": [enc(k) for k in t], "len": len(t)}
         its = catching(lambda: list(t.items()))
         if isinstance(its, tuple) and its and its[0] == "__err__":
@@ -153,10 +203,25 @@ def main():
             out = {"steps": steps}
             if sels:
                 out["get"] = obs(catching(lambda: t.get(sels[0], SENT)), t)
+                gn = catching(lambda: t.get(sels[0]))
+                out["get_none"] = "err" if (isinstance(gn, tuple) and len(gn) == 2 and gn[0] == "__err__") else (gn is None)
+                out["repeat"] = obs(catching(lambda: t[sels[0]]), t)      # same object, same selector, second call
                 if hasattr(t, "action_dist"):
                     out["action_dist"] = obs(catching(lambda: t.action_dist(sels[0])), t)
             chains.append(out)
         res["chains"] = chains
+        # construction-time validation (Table._validate_table)
+        if "ctor_dup" in case:
+            dd = [[dec(e) for e in d] for d in case["ctor_dup"]]
+            shp = tuple(len(d) for d in dd)
+            r = catching(lambda: Table(np.zeros(shp), TableIndex(field_names=list(range(len(dd))), field_domains=dd)))
+            res["ctor_dup"] = r[1] if isinstance(r, tuple) else "ok"
+            good = [[dec(e) for e in d] for d in case["doms"]]
+            r = catching(lambda: Table(np.zeros(tuple(len(d) + 1 for d in good)), TableIndex(field_names=list(range(len(good))), field_domains=good)))
+            res["ctor_shape"] = r[1] if isinstance(r, tuple) else "ok"
+        if case["cls"] == "StateActionTable":
+            r = catching(lambda: StateActionTable.from_state_list([1], [1]))
+            res["sat_from_state_list"] = r[1] if isinstance(r, tuple) else "ok"
         return res
 
     run_cases(one)
